@@ -822,7 +822,7 @@ func init() {
 		NonTrivial: func(r *simrt.Run) bool {
 			return r.Ops["poll:ok"] >= 4 && r.Ops["query:ok"] >= 3 && r.Switches >= 20
 		},
-		Rule: "the real ChainTracker (blocksToSave 1-12, its own timers, ticker and back-off on the synctest fake clock; its polling goroutine is a scheduled task) polls a simulated node with hash-chained blocks (hash = f(height, fork id)); per poll the tape picks the node's next state: +1..4 blocks, jump ahead (around and beyond memory), reorganisation of depth <= memory, depth > memory, reorganisation + growth, no change, or a reported latest below the tip (with/without the higher blocks served); per call: latency, plain error, net.Error timeout, slow answer, hang past the fetch deadline. Profile strict: the node changes only at the instant a poll starts; profile relaxed: also between the calls of one poll. 0-3 reader tasks call GetLatestBlockData over a grid of (from,to,specific) incl. LATEST_BLOCK-relative and out-of-window arguments and GetLatestBlockNum while the poller runs. After 6-25 polls (thorough 20-100) the node and the faults stop and 3 quiet polls follow. Non-trivial = >=4 successful polls, >=3 successful queries, >=20 context switches; distinct = (op,outcome,fault) sequence x context-switch sequence",
+		Rule:    "the real ChainTracker (blocksToSave 1-12, its own timers, ticker and back-off on the synctest fake clock; its polling goroutine is a scheduled task) polls a simulated node with hash-chained blocks (hash = f(height, fork id)); per poll the tape picks the node's next state: +1..4 blocks, jump ahead (around and beyond memory), reorganisation of depth <= memory, depth > memory, reorganisation + growth, no change, or a reported latest below the tip (with/without the higher blocks served); per call: latency, plain error, net.Error timeout, slow answer, hang past the fetch deadline. Profile strict: the node changes only at the instant a poll starts; profile relaxed: also between the calls of one poll. 0-3 reader tasks call GetLatestBlockData over a grid of (from,to,specific) incl. LATEST_BLOCK-relative and out-of-window arguments and GetLatestBlockNum while the poller runs. After 6-25 polls (thorough 20-100) the node and the faults stop and 3 quiet polls follow. Non-trivial = >=4 successful polls, >=3 successful queries, >=20 context switches; distinct = (op,outcome,fault) sequence x context-switch sequence",
 		Real:    []string{"protocol/chaintracker ChainTracker incl. start() polling goroutine, updateTimer/exponential back-off, fetchAllPreviousBlocks/readHashes/hashesOverlapIndexes/replaceBlocksQueue, forkChanged, DefaultChainTrackerFetcher, GetLatestBlockData/WantedBlocksData, GetLatestBlockNum (instrumented copies through the build overlay)", "timers, ticker, context deadlines on the synctest fake clock"},
 		Stubbed: []string{"the node behind chaintracker.ChainFetcher (simulated: hash-chained blocks, forks, gaps, regressions, errors, latency)", "reader tasks", "gRPC listener not started (no ServerAddress)", "provider metrics (nil)"},
 		Assume:  []string{"code between two instrumented synchronisation points is atomic in the simulation", "a poll counts as successful when no node call of that poll failed and the reported latest is not below the tracker's (a lower reported latest is answered with the consistency callback and deliberately not mirrored)", "the node serves every height 0..tip and never re-creates a hash of an abandoned fork", "fork callback legitimacy: some hash held at poll start differs from the node's hash for that height", "ServerBlockMemory is set above the number of polls so that AddBlockGap never draws from crypto/rand", "bounded liveness K = 3 quiet polls"},
